@@ -267,3 +267,109 @@ def replay(pid, path):
     print(json.dumps(r, indent=1))
     print("\nTo re-run the exploration that produced this file: ./check", pid, "--tier", r.get("tier", "quick"))
     return 0
+
+
+# ---- E1: the derive macro in process ---------------------------------------------------------------
+
+def serde_case_rs():
+    """serde_derive's own case.rs (exact version of /repo/Cargo.lock), inner doc comments removed so
+    that it can be include!d into a module."""
+    import re
+    lock = open(os.path.join(REPO, "Cargo.lock")).read()
+    m = re.search(r'name = "serde_derive"\nversion = "([^"]+)"', lock)
+    if not m:
+        raise Machinery("serde_derive not in /repo/Cargo.lock")
+    ver = m.group(1)
+    home = os.environ.get("CARGO_HOME", os.path.expanduser("~/.cargo"))
+    import glob
+    cands = glob.glob(os.path.join(home, "registry", "src", "*", f"serde_derive-{ver}", "src", "internals", "case.rs"))
+    if not cands:
+        raise Machinery(f"serde_derive-{ver} sources not found in the cargo registry")
+    text = open(cands[0]).read()
+    text = "\n".join(l for l in text.splitlines() if not l.startswith("//!")) + "\n"
+    os.makedirs(BUILD, exist_ok=True)
+    out = os.path.join(BUILD, f"serde_case_{ver}.rs")
+    if not os.path.exists(out) or open(out).read() != text:
+        with open(out, "w") as f:
+            f.write(text)
+    return out, ver
+
+
+def build_e1(features=("serde-compat",)):
+    """Build the proc-macro crate's unit-test binary with the harness included (hook H1)."""
+    case_rs, _ = serde_case_rs()
+    tag = "e1-" + ("-".join(sorted(features)) if features else "nofeat")
+    env = env_for_cargo(tag, {
+        "TS_RS_VERIF_MACROS_HARNESS": os.path.join(HARNESS, "e1_macros.rs"),
+        "TSRS_SERDE_CASE_RS": case_rs,
+    })
+    cmd = ["cargo", "test", "--offline", "-p", "ts-rs-macros", "--lib", "--no-run", "--no-default-features",
+           "--message-format=json"]
+    if features:
+        cmd += ["--features", ",".join(features)]
+    p = sh(cmd, cwd=REPO, env=env, check=False)
+    if p.returncode != 0:
+        msgs = []
+        for line in p.stdout.splitlines():
+            try:
+                j = json.loads(line)
+            except Exception:
+                continue
+            if j.get("reason") == "compiler-message" and j["message"].get("level") == "error":
+                msgs.append(j["message"].get("rendered", ""))
+        raise Machinery("building the in-process macro harness (E1) failed:\n" + "\n".join(msgs)[-6000:] + p.stderr[-2000:])
+    exe = None
+    for line in p.stdout.splitlines():
+        try:
+            j = json.loads(line)
+        except Exception:
+            continue
+        if j.get("reason") == "compiler-artifact" and j.get("executable") and j["target"]["name"] == "ts_rs_macros":
+            exe = j["executable"]
+    if not exe:
+        raise Machinery("E1 test binary not found in cargo output")
+    return exe
+
+
+_LIBDIR = None
+
+
+def rust_libdir():
+    """The proc-macro crate's test binary links libstd dynamically."""
+    global _LIBDIR
+    if _LIBDIR is None:
+        p = sh(["rustc", "--print", "sysroot"], cwd=REPO)
+        root = p.stdout.strip()
+        import glob
+        dirs = {os.path.dirname(x) for x in glob.glob(os.path.join(root, "lib", "**", "libstd-*.so"), recursive=True)}
+        _LIBDIR = ":".join(sorted(dirs) + [os.path.join(root, "lib")])
+    return _LIBDIR
+
+
+def run_e1(exe, mode, tier, slices=NCPU, timeout=3600):
+    import tempfile
+    tmpdir = os.path.join(BUILD, "e1-out")
+    os.makedirs(tmpdir, exist_ok=True)
+
+    def one(i):
+        out = os.path.join(tmpdir, f"{mode}.{os.getpid()}.{i}.json")
+        e = dict(os.environ)
+        e["LD_LIBRARY_PATH"] = rust_libdir() + ":" + e.get("LD_LIBRARY_PATH", "")
+        e.update({"TSRS_E1_MODE": mode, "TSRS_E1_SLICE": f"{i}/{slices}", "TSRS_E1_OUT": out, "TSRS_E1_TIER": tier})
+        try:
+            p = subprocess.run([exe, "verif::verif_main", "--exact", "--nocapture", "--test-threads=1"],
+                               stdout=subprocess.PIPE, stderr=subprocess.DEVNULL, text=True, timeout=timeout, env=e, cwd="/")
+        except subprocess.TimeoutExpired:
+            raise Machinery(f"E1 timeout ({mode} slice {i})")
+        if p.returncode != 0 or not os.path.exists(out):
+            raise Machinery(f"E1 harness crashed ({mode} slice {i}): {p.stdout[-3000:]}")
+        with open(out) as f:
+            r = json.load(f)
+        os.remove(out)
+        return r
+    with ThreadPoolExecutor(max_workers=NCPU) as ex:
+        reports = list(ex.map(one, range(slices)))
+    m = merge_reports(reports)
+    if m["machinery_errors"]:
+        raise Machinery("; ".join(m["machinery_errors"][:5]))
+    return m
